@@ -59,6 +59,7 @@ fn real_main() -> i32 {
     let opts = RunOpts { tier, seed, replay, cases_override, shards_override };
     if id == "bench" { bench(); return 0; }
     let code = match id.as_str() {
+        "C09" => run_engine(&engines::c09_datacap::C09, &opts),
         "C12" => run_engine(&engines::c12_multisig::C12, &opts),
         "C06" => run_engine(&engines::market::engines::C06, &opts),
         "C07" => run_engine(&engines::market::engines::C07, &opts),
